@@ -323,7 +323,9 @@ func main() {
 		}
 	}
 	for _, lon := range []float64{-180, 180, -179.99999999, 179.99999999, 0, 12.5} {
-		for _, lat := range []float64{85.0511, -85.0511, 85.06, -85.06, 90, -90, 85.05112877980659, -85.05112877980659, 0, 45.3} {
+		for _, lat := range []float64{85.0511, -85.0511, 85.06, -85.06, 90, -90, 85.05112877980659, -85.05112877980659, 0, 45.3,
+			// "any latitude": far beyond the poles, where periodic functions of the latitude come back into range
+			94, -94, 96, -96, 100, -120, 180, -180, 270, -270, 1000, math.MaxFloat64, -math.MaxFloat64} {
 			pts = append(pts, orb.Point{lon, lat})
 		}
 	}
